@@ -26,15 +26,57 @@ func resolveMacroAnchors(p *Prog, a *Anchors, r *Report) *macroAnchors {
 			ints = append(ints, st.Field(i).Name())
 		}
 	}
-	if len(ints) != 1 {
-		r.Unk("anchor", "-", "anchor unresolved: macro depth counter (exactly one integer field of ExecutionContext expected, found %v)", ints)
-		return nil
-	}
-	ma.depthField = ints[0]
 	if p.Named("tagMacroNode") == nil {
 		r.Unk("anchor", "-", "anchor unresolved: type tagMacroNode")
 		return nil
 	}
+	if len(ints) > 1 {
+		// several counters: the macro depth is the one that is incremented (x = x + 1) in a function that executes
+		// a macro's body
+		var cands []string
+		p.EachInstr(func(f *ssa.Function, in ssa.Instruction) {
+			st, ok := in.(*ssa.Store)
+			if !ok {
+				return
+			}
+			fa, ok := st.Addr.(*ssa.FieldAddr)
+			if !ok || structOf(fa.X.Type()) != a.ExecCtx {
+				return
+			}
+			bo, ok := st.Val.(*ssa.BinOp)
+			if !ok || bo.Op != token.ADD {
+				return
+			}
+			execsBody := false
+			for _, g := range withClosures(topLevel(f)) {
+				for _, b := range g.Blocks {
+					for _, x := range b.Instrs {
+						if ci, isCall := x.(ssa.CallInstruction); isCall && ci.Common().StaticCallee() != nil && ci.Common().StaticCallee().Name() == "Execute" && len(ci.Common().Args) > 0 && loadsField(ci.Common().Args[0], "tagMacroNode", "wrapper") {
+							execsBody = true
+						}
+					}
+				}
+			}
+			if execsBody {
+				name := fieldName(fa.X.Type(), fa.Field)
+				dup := false
+				for _, c := range cands {
+					if c == name {
+						dup = true
+					}
+				}
+				if !dup {
+					cands = append(cands, name)
+				}
+			}
+		})
+		ints = cands
+	}
+	if len(ints) != 1 {
+		r.Unk("anchor", "-", "anchor unresolved: macro depth counter (exactly one integer field of ExecutionContext that the macro body executor increments expected, found %v)", ints)
+		return nil
+	}
+	ma.depthField = ints[0]
 	p.EachInstr(func(f *ssa.Function, in ssa.Instruction) {
 		ci, ok := in.(ssa.CallInstruction)
 		if !ok {
